@@ -165,27 +165,34 @@ func (c *ShipConnection) CloseConnection(safe bool, code int, reason string) {
 			state == model.SmeHelloStateRejected
 
 		// this may not be used for Connection Data Exchange is entered!
+		// if the data connection is already closed there is nobody to announce the
+		// termination to, and sendShipModel must not be used here as it would call
+		// CloseConnection again from within shutdownOnce
 		if safe && state == model.SmeStateComplete {
-			// SHIP 13.4.7: Connection Termination Announce
-			closeMessage := model.ConnectionClose{
-				ConnectionClose: model.ConnectionCloseType{
-					Phase:   model.ConnectionClosePhaseTypeAnnounce,
-					MaxTime: util.Ptr(uint(500)),
-					Reason:  util.Ptr(model.ConnectionCloseReasonType(reason)),
-				},
+			if isClosed, _ := c.dataWriter.IsDataConnectionClosed(); !isClosed {
+				// SHIP 13.4.7: Connection Termination Announce
+				closeMessage := model.ConnectionClose{
+					ConnectionClose: model.ConnectionCloseType{
+						Phase:   model.ConnectionClosePhaseTypeAnnounce,
+						MaxTime: util.Ptr(uint(500)),
+						Reason:  util.Ptr(model.ConnectionCloseReasonType(reason)),
+					},
+				}
+
+				if shipMsg, err := c.shipMessageData(model.MsgTypeEnd, closeMessage); err == nil {
+					_ = c.dataWriter.WriteMessageToWebsocketConnection(shipMsg)
+				}
+
+				go func() {
+					// wait a bit to let it send
+					<-time.After(500 * time.Millisecond)
+
+					//
+					c.dataWriter.CloseDataConnection(4001, "close")
+					c.infoProvider.HandleConnectionClosed(c, handshakeEnd)
+				}()
+				return
 			}
-
-			_ = c.sendShipModel(model.MsgTypeEnd, closeMessage)
-
-			go func() {
-				// wait a bit to let it send
-				<-time.After(500 * time.Millisecond)
-
-				//
-				c.dataWriter.CloseDataConnection(4001, "close")
-				c.infoProvider.HandleConnectionClosed(c, handshakeEnd)
-			}()
-			return
 		}
 
 		closeCode := 4001
@@ -404,6 +411,11 @@ func (c *ShipConnection) shipMessage(typ byte, model interface{}) ([]byte, error
 		return nil, err
 	}
 
+	return c.shipMessageData(typ, model)
+}
+
+// transform a SHIP model into EEBUS specific JSON without checking the data connection
+func (c *ShipConnection) shipMessageData(typ byte, model interface{}) ([]byte, error) {
 	if model == nil {
 		return nil, errors.New("invalid data")
 	}
